@@ -151,7 +151,7 @@ func (c *CPU6502) ldaIndIdxY() (uint64, bool) {
 	stop := c.ldaBase(c.Mem.Load(operandAddress))
 	c.PC++
 
-	return 4 + additionalCycle, stop
+	return 5 + additionalCycle, stop
 }
 
 func (c *CPU6502) ldaIndirect() (uint64, bool) {
